@@ -21,7 +21,8 @@ use std::sync::atomic::{AtomicUsize, Ordering};
 use std::sync::Arc;
 use suiron::*;
 
-const NAMES: [&str; 9] = ["$X", "$Y", "$Z", "$W", "$V", "$U", "$T", "$S", "$R"];     // the replay driver's names for ids 1..
+// the replay driver's names for ids 1..; names REPEAT (ids 4.. reuse $X $Y $Z): two variables of different clauses may carry the same name
+const NAMES: [&str; 9] = ["$X", "$Y", "$Z", "$X", "$Y", "$Z", "$X", "$Y", "$Z"];
 struct Gen { rng: StdRng, nvars: usize }
 impl Gen {
     fn var(&mut self) -> Tm { let i = self.rng.gen_range(1..=self.nvars); Tm::Var(i, NAMES[i - 1].to_string()) }
